@@ -88,7 +88,78 @@ def run_doc(case, res):
         res.inconc("doc harness error: " + short_tb())
 
 
+def run_hostile_str(case, res):
+    """Data objects whose display methods (`__str__`, `__repr__`, `__format__`) raise: the uniqueness check may not need
+    them, and however an attempt to create a second sibling with the same data_id ends, it must not succeed."""
+    from nutree import Tree
+    from nutree.typed_tree import TypedTree
+
+    from .. import wf
+
+    exc_types = {"KeyError": KeyError, "ValueError": ValueError, "AttributeError": AttributeError, "TypeError": TypeError,
+                 "IndexError": IndexError, "StopIteration": StopIteration, "AssertionError": AssertionError}
+    E = exc_types[case["exc"]]
+
+    class Caption:
+        def __init__(self, key):
+            self.key = key
+
+        def _boom(self, *a):
+            raise E(f"no translation for {self.key}")
+
+        __str__ = __repr__ = __format__ = _boom
+
+        def __hash__(self):
+            return hash(self.key)
+
+        def __eq__(self, other):
+            return isinstance(other, Caption) and other.key == self.key
+
+    typed = case["typed"]
+    kw = {"kind": "k"} if typed else {}
+    t = (TypedTree if typed else Tree)("t")
+    p = t.add("P", **kw)
+    q = t.add("Q", **kw)
+    a = p.add(Caption("x"), data_id="dup", **kw)
+    a.add("below-a", **kw)
+    other = q.add(Caption("x2"), data_id="dup", **kw)  # same id under another parent: a clone group of two
+    sib = p.add(Caption("y"), data_id="other-id", **kw)
+    holder = q.add("holder", **kw)
+    holder.add(Caption("x3"), data_id="dup", **kw)
+    attempts = {
+        "add": lambda: p.add(Caption("x"), data_id="dup", **kw),
+        "add_before": lambda: p.add(Caption("z"), data_id="dup", before=True, **kw),
+        "add_node": lambda: p.add(other, **kw),
+        "add_node_deep": lambda: p.add(other, deep=True, **kw),
+        "copy_to": lambda: other.copy_to(p),
+        "move_to": lambda: other.move_to(p),
+        "set_data": lambda: sib.set_data(Caption("x"), data_id="dup"),
+        "set_data_id_only": lambda: sib.set_data(None, data_id="dup"),
+        "remove_keep_children": lambda: holder.remove(keep_children=True) or other.parent.children,  # q then holds two 'dup'
+        "append_sibling": lambda: a.append_sibling(Caption("x"), data_id="dup"),
+        "from_dict": lambda: sib.from_dict([{"data": "n1", "data_id": "same"}, {"data": "n2", "data_id": "same"}]),
+    }
+    bad = []
+    for name, fn in attempts.items():
+        try:
+            fn()
+            outcome = "returned"
+        except Exception as e:  # noqa: BLE001
+            outcome = type(e).__name__
+        res.count(f"hostile_str:{name}:{outcome}")
+        errs, nodes = wf.wf_graph(t)
+        e3 = wf.wf_siblings(t, nodes) if nodes else []
+        if errs or e3:
+            bad.append(f"after {name} ({outcome}) with data whose display methods raise {case['exc']}: " + "; ".join((errs + e3)[:2]))
+            break
+    res.case(case, nontrivial=True)
+    if bad:
+        res.violation(case, bad[0][:2500])
+
+
 def run_case(case, res):
+    if case.get("kind") == "hostile_str":
+        return run_hostile_str(case, res)
     if case.get("kind") == "repotests":
         return run_repotests({}, res)
     if case.get("kind") == "doc":
@@ -156,6 +227,9 @@ def run_shard(spec, res):
     if spec["kind"] == "repotests":
         return run_repotests(spec, res)
     if spec["kind"] == "docs":
+        for exc in ("KeyError", "ValueError", "AttributeError", "TypeError", "IndexError", "StopIteration", "AssertionError"):
+            for typed in (False, True):
+                run_case({"kind": "hostile_str", "exc": exc, "typed": typed}, res)
         rng = rng_for(spec["seed"], "c03-docs")
         for j in range(spec["count"]):
             for route, form in (("from_dict", ""), ("load", "spelled"), ("load", "ref"), ("load", "ids"),
